@@ -107,6 +107,8 @@ enum Leaf {
     Worst,
     Random,
     Tour(usize),
+    /// Tournament::of_size::<K>() (K = 1..3) / Tournament::binary() (K = 0)
+    TourOf(usize),
     Lex(usize),
 }
 const RESULTS_PER_INDIVIDUAL: usize = 2;
@@ -120,7 +122,8 @@ fn leaf_admits(l: Leaf, n: usize) -> BTreeSet<ErrKind> {
                 set(&[])
             }
         }
-        Leaf::Tour(k) => {
+        Leaf::Tour(k) | Leaf::TourOf(k) => {
+            let k = if k == 0 { 2 } else { k };
             if k > n {
                 set(&[ErrKind::TournamentSize])
             } else {
@@ -143,6 +146,7 @@ fn leaf_member(l: Leaf, n: usize) -> bool {
     match l {
         Leaf::Best | Leaf::Worst | Leaf::Random | Leaf::Lex(_) => n > 0,
         Leaf::Tour(k) => k <= n,
+        Leaf::TourOf(k) => (if k == 0 { 2 } else { k }) <= n,
     }
 }
 
@@ -153,6 +157,10 @@ macro_rules! with_leaf {
             Leaf::Worst => $f(Worst),
             Leaf::Random => $f(Random),
             Leaf::Tour(k) => $f(Tournament::new(NonZeroUsize::new(k).unwrap())),
+            Leaf::TourOf(0) => $f(Tournament::binary()),
+            Leaf::TourOf(1) => $f(Tournament::of_size::<1>()),
+            Leaf::TourOf(2) => $f(Tournament::of_size::<2>()),
+            Leaf::TourOf(_) => $f(Tournament::of_size::<3>()),
             Leaf::Lex(c) => $f(Lexicase::new(c)),
         }
     };
@@ -162,6 +170,9 @@ pub fn leaf_configs(max_n: usize) -> Vec<Config> {
     let mut leaves = vec![Leaf::Best, Leaf::Worst, Leaf::Random];
     for k in 1..=max_n + 1 {
         leaves.push(Leaf::Tour(k));
+    }
+    for k in 0..=3 {
+        leaves.push(Leaf::TourOf(k));
     }
     for c in 0..=3 {
         leaves.push(Leaf::Lex(c));
@@ -190,6 +201,10 @@ pub fn leaf_configs(max_n: usize) -> Vec<Config> {
                 Leaf::Worst => direct(Weighted::new(Worst, w)),
                 Leaf::Random => direct(Weighted::new(Random, w)),
                 Leaf::Tour(k) => direct(Weighted::new(Tournament::new(NonZeroUsize::new(k).unwrap()), w)),
+                Leaf::TourOf(0) => direct(Weighted::new(Tournament::binary(), w)),
+                Leaf::TourOf(1) => direct(Weighted::new(Tournament::of_size::<1>(), w)),
+                Leaf::TourOf(2) => direct(Weighted::new(Tournament::of_size::<2>(), w)),
+                Leaf::TourOf(_) => direct(Weighted::new(Tournament::of_size::<3>(), w)),
                 Leaf::Lex(c) => direct(Weighted::new(Lexicase::new(c), w)),
             };
             out.push(Config {
